@@ -46,6 +46,21 @@ def _alarm(_sig, _frm):
     raise PrintTimeout()
 
 
+def call_with_timeout(fn, seconds=None):
+    """-> fn() ; raises PrintTimeout when it does not return within the per-call limit (main thread only)"""
+    import signal
+    import threading
+    if threading.current_thread() is not threading.main_thread():
+        return fn()
+    old = signal.signal(signal.SIGALRM, _alarm)
+    signal.setitimer(signal.ITIMER_REAL, seconds or print_timeout())
+    try:
+        return fn()
+    finally:
+        signal.setitimer(signal.ITIMER_REAL, 0)
+        signal.signal(signal.SIGALRM, old)
+
+
 def impl_pformat(v, cfg):
     """-> (text or 'EXC <type>', [warning messages]); 'EXC PrintTimeout' when the call does not return"""
     import signal
@@ -175,6 +190,7 @@ def strict_equal(a, b):
 def eval_text(text):
     import pathlib
     ns = {'valgen': valgen, 'pathlib': pathlib, 'float': float, 'frozenset': frozenset, 'set': set}
+    ns.update(vars(valgen.MAIN_SCOPE))       # the names a running script would have at top level
     return eval('(' + text + '\n)', ns)
 
 
